@@ -30,6 +30,14 @@ Print Assumptions C08_rerun_after_crash.
 
 (* tie to the source: the temporary name differs from the final name because the
    suffix the code appends (regenerated constant) is not empty *)
+(* nothing ever waits in the file object's buffer while a checkpoint is written: whenever a flow fails or the process dies
+   between two operations, no bytes of the abandoned attempt are left that could reach the disk later (e.g. into a
+   checkpoint committed by a retry) *)
+Theorem C08_nothing_left_buffered : forall (D R : Type) (encD : D -> line) (encR : R -> line) final active p k s0,
+  buffered s0 = [] -> buffered (run_ops (firstn k (stream_ops D R encD encR final active p)) s0) = [].
+Proof. exact never_buffered. Qed.
+Print Assumptions C08_nothing_left_buffered.
+
 Theorem C08_active_name_differs : forall final, final ++ c_active_suffix <> final.
 Proof. intros final. apply app_ne_self. discriminate. Qed.
 Print Assumptions C08_active_name_differs.
